@@ -826,12 +826,21 @@ func (w *world) buildOp(always bool, targets []string, line string) string {
 	}
 
 	// ---- oracle: a build with nothing changed executes no rule
-	if obs.class == "ok" && !always {
+	// (after an AlwaysRebuild build too: the ordinary build that follows it finds everything up to date)
+	if obs.class == "ok" {
 		w.barrier()
 		c2, e2, _ := realBuild(w.root, false, targets)
-		w.counts["oracle:null-build-checked"]++
-		if c2 != "ok" || len(e2) > 0 {
-			w.fail("null-build-executes", fmt.Sprintf("a second build with nothing changed gave %s and executed %v", c2, e2))
+		if always {
+			w.counts["oracle:null-build-after-always-checked"]++
+			if c2 != "ok" || len(e2) > 0 {
+				w.fail("null-build-after-always-executes", fmt.Sprintf(
+					"an ordinary build right after a successful AlwaysRebuild build, nothing changed, gave %s and executed %v", c2, e2))
+			}
+		} else {
+			w.counts["oracle:null-build-checked"]++
+			if c2 != "ok" || len(e2) > 0 {
+				w.fail("null-build-executes", fmt.Sprintf("a second build with nothing changed gave %s and executed %v", c2, e2))
+			}
 		}
 	}
 	return res
